@@ -108,8 +108,9 @@ def main():
     json.dump(meta, open(meta_p, "w"), indent=1)
     ok = result.get("demo_clean_rc") == 0 and result.get("demo_changed_rc", 0) != 0 and result.get("tests_rc") == 0
     det = {c: any(r["detected"] for r in rs) for c, rs in result["checks"].items()}
+    det_all = {c: all(r["detected"] for r in rs) for c, rs in result["checks"].items()}
     print(json.dumps(dict(seeded=os.path.basename(d), confirmed=ok, demo_clean_rc=result.get("demo_clean_rc"),
-                          demo_changed_rc=result.get("demo_changed_rc"), tests=result.get("tests_tail"), detected=det,
+                          demo_changed_rc=result.get("demo_changed_rc"), tests=result.get("tests_tail"), detected=det, detected_at_every_seed=det_all,
                           first=[(c, rs[0].get("first_replay")) for c, rs in result["checks"].items()]), indent=1))
     return 0
 
